@@ -28,7 +28,7 @@ from fractions import Fraction
 from common import CORPUS, Check, call, import_repo, lst, rat, run_check, run_driver
 
 from c06 import (BOUND_SLACK, DYADIC_THRS, HALF, REFINE_TOL, TORCH_DTYPE, DTYPE_MIX, eff_abs_sum, float64_special,
-                 exact_offsets, explain_bound_failure, fail, half_refine_probe, is_p1_raise, patch_of, patch_size, thr_in_dtype)
+                 exact_offsets, explain_bound_failure, fail, half_precision_refine, half_refine_probe, layouts_for, memory_layout, is_p1_raise, patch_of, patch_size, thr_in_dtype)
 
 THEOREMS = [
     "SleapVerif.C07.global_attains_max",
@@ -111,8 +111,8 @@ def gen_case(rng):
     maps = [gen_lattice_map(rng, h, w, k, den) for k in kinds]
     dtype = rng.choice(DTYPE_MIX)
     p = rng.choice([0, 1, 2, 3, 3, 4, 5, 5, 6, 7, 8])
-    if dtype in HALF:
-        p = 0  # integral refinement of half-precision maps is out of domain on the unchanged tree (half_refine_probe)
+    if dtype in HALF and rng.random() < 0.4:
+        p = 0  # (the rest keeps its patch size: excluded region F-C06half, see c06.half_precision_refine)
     kind = "+".join(sorted(set(kinds)))
     if dtype == "f64" and rng.random() < 0.4:
         maps, den = [float64_special(rng, h, w, [[v / den for v in row] for row in m]) for m in maps], 1
@@ -153,7 +153,7 @@ def big_half_case(rng):
         i, j = (rng.randrange(h), k) if along_x else (k, rng.randrange(w))
         m[i][j] = 8
         maps.append(m)
-    return {"S": 1, "C": C, "h": h, "w": w, "den": 8, "maps": maps, "thr": 0.5, "p": 0, "dtype": dtype,
+    return {"S": 1, "C": C, "h": h, "w": w, "den": 8, "maps": maps, "thr": 0.5, "p": rng.choice([0, 3, 5]), "dtype": dtype,
             "kind": "big_half", "shape": "big_half"}
 
 
@@ -232,6 +232,15 @@ class Impl:
     def full(self, cms, thr, refinement, p):
         r = call(self.pf.find_global_peaks, cms.clone(), threshold=thr, refinement=refinement, integral_patch_size=p)
         return ("raise",) + r[1:] if r[0] == "raise" else self.canon(r[1], cms.shape[0], cms.shape[1])
+
+    # the tensor exactly as given (`clone()` would re-pack a non-dense view into a contiguous one)
+    def rough_raw(self, v, thr):
+        r = call(self.pf.find_global_peaks_rough, v, threshold=thr)
+        return ("raise",) + r[1:] if r[0] == "raise" else self.canon(r[1], v.shape[0], v.shape[1])
+
+    def full_raw(self, v, thr, refinement, p):
+        r = call(self.pf.find_global_peaks, v, threshold=thr, refinement=refinement, integral_patch_size=p)
+        return ("raise",) + r[1:] if r[0] == "raise" else self.canon(r[1], v.shape[0], v.shape[1])
 
 
 def model_line(case, cms):
@@ -377,15 +386,16 @@ def run_case(chk, I, case, mline, f07_known):
                 fail(chk, "C07: result of one channel depends on the other maps in the batch",
                          {**small, "channel": [s, c]}, {"in_batch": rough[k], "alone": alone[0]})
     n_ev = chk.evaluations
-    if n_ev % 6 == 1 and h * w > 1:  # a non-contiguous view of the same tensor
-        chk.tag("oracle:non-contiguous")
-        got = I.rough(cms.transpose(2, 3).contiguous().transpose(2, 3), thr)
-        if str(got) != str(rough):
-            chk.disagree("find_global_peaks_rough on a non-contiguous view == on the contiguous tensor", small, str(got)[:400], str(rough)[:400])
-            for k, g in enumerate(got if got and got[0] != "raise" else []):
-                why, sigs = oracle_rough(np, a[k // C, k % C], thr, g, dtype)
-                if why:
-                    fail(chk, f"C07 fails on find_global_peaks_rough (non-contiguous input): {why}", {**small, "channel": [k // C, k % C]}, list(g), sigs)
+    # memory layouts: the same values in another layout must give the contiguous tensor's answer
+    for name in layouts_for(chk, case):
+        v, ref_t = memory_layout(I.torch, cms, name)
+        chk.tag(f"layout:{name}" + ("" if not v.is_contiguous() else "(contiguous for this shape)"))
+        ref = rough if ref_t is None else I.rough(ref_t, thr)
+        for fn_name, got in (("find_global_peaks_rough", I.rough_raw(v, thr)),
+                             ("find_global_peaks(refinement=None)", I.full_raw(v, thr, None, 5))):
+            if str(got) != str(ref):
+                fail(chk, f"C07: {fn_name} on a `{name}` view of the maps differs from its answer on the contiguous clone",
+                     {**small, "layout": name, "strides": list(v.stride())}, {"view": str(got)[:300], "contiguous": str(ref)[:300]})
     if n_ev % 7 == 2:  # any other refinement string returns the rough peaks
         chk.tag("oracle:refinement=other-string")
         got = I.full(cms, thr, "local", 5)
@@ -399,6 +409,11 @@ def run_case(chk, I, case, mline, f07_known):
             chk.disagree("find_global_peaks[_rough] with default threshold == explicit threshold", small, str(got)[:400], str(rough)[:400])
     if p == 0:
         return
+    # half-precision maps (finding F-C06half): correspondence and oracles below run on the IDENTICAL VALUES as float32; the
+    # half-precision call itself is compared with that answer afterwards
+    half_in = (cms, dtype) if dtype in HALF else None
+    if half_in:
+        cms, dtype = cms.float(), "f32"
     refined = I.full(cms, thr, "integral", p)
     if is_p1_raise(refined, p):
         # documented behaviour of the pinned tree (finding F-C06p1); the model's value is rough + 0
@@ -409,17 +424,18 @@ def run_case(chk, I, case, mline, f07_known):
         chk.disagree("find_global_peaks(integral) raises where the model does not", small, str(refined), "ok")
         fail(chk, "C07: find_global_peaks(integral) raised", small, str(refined))
         return
-    def close(fa, fb, g_, s_, c_):
+    def close(fa, fb, g_, s_, c_, A=None):
         """two implementation outputs for one channel: NaN pattern and value exactly, point within the conditioned tolerance"""
+        A = a if A is None else A
         if (fa[0] is None) != (fb[0] is None) or (fa[1] is None) != (fb[1] is None) or fa[2] != fb[2]:
             return False
         if fa[0] is None or (fa[0] == fb[0] and fa[1] == fb[1]):
             return True
         if g_[0] is None:
             return False
-        P = patch_of(np, a, s_, c_, int(g_[0]), int(g_[1]), p)
-        z, az = float(P.sum()), eff_abs_sum(np, P, a[s_, c_], p)
-        if abs(z) < 1e-3 * az:
+        P = patch_of(np, A, s_, c_, int(g_[0]), int(g_[1]), p)
+        z, az = float(P.sum()), eff_abs_sum(np, P, A[s_, c_], p)
+        if abs(z) <= 1e-3 * az:
             return True
         tol = REFINE_TOL[dtype] * max(1.0, (p + 1) / 2 * az / abs(z))
         return abs(fa[0] - fb[0]) <= tol and abs(fa[1] - fb[1]) <= tol
@@ -432,10 +448,19 @@ def run_case(chk, I, case, mline, f07_known):
             if (alone and alone[0] == "raise") or not close(alone[0], refined[k], rough[k], s, c):
                 fail(chk, "C07: refined result of one channel depends on the other maps in the batch",
                          {**small, "channel": [s, c]}, {"in_batch": refined[k], "alone": alone[0] if alone else None})
-    if p >= 2 and n_ev % 6 == 1 and h * w > 1:
-        got = I.full(cms.transpose(2, 3).contiguous().transpose(2, 3), thr, "integral", p)
-        if (got and got[0] == "raise") or not all(close(x, y, g_, k // C, k % C) for k, (x, y, g_) in enumerate(zip(got, refined, rough))):
-            chk.disagree("find_global_peaks(integral) on a non-contiguous view == on the contiguous tensor", small, str(got)[:400], str(refined)[:400])
+    if p >= 2:
+        for name in layouts_for(chk, case):
+            v, ref_t = memory_layout(I.torch, cms, name)
+            got = I.full_raw(v, thr, "integral", p)
+            if ref_t is None:
+                ref, ref_rough, A = refined, rough, a
+            else:
+                ref, ref_rough, A = I.full(ref_t, thr, "integral", p), I.rough(ref_t, thr), I.exact(ref_t)
+            ok = not (got and got[0] == "raise") and not (ref and ref[0] == "raise") and all(
+                close(x, y, g_, k // C, k % C, A) for k, (x, y, g_) in enumerate(zip(got, ref, ref_rough)))
+            if not ok:
+                fail(chk, f"C07: find_global_peaks(integral, p={p}) on a `{name}` view of the maps differs from its answer on the contiguous clone",
+                     {**small, "layout": name, "strides": list(v.stride())}, {"view": str(got)[:300], "contiguous": str(ref)[:300]})
     if p == 5 and thr == 0.2 and dtype == "f32":
         r = call(I.pf.find_global_peaks, cms.clone(), refinement="integral")
         got = ("raise",) + r[1:] if r[0] == "raise" else I.canon(r[1], S, C)
@@ -453,7 +478,7 @@ def run_case(chk, I, case, mline, f07_known):
             else:
                 P = patch_of(np, a, s, c, int(g[0]), int(g[1]), p)
                 z, az = float(P.sum()), eff_abs_sum(np, P, a[s, c], p)
-                if mp == "inf" or abs(z) < 1e-3 * az:
+                if mp == "inf" or abs(z) <= 1e-3 * az:
                     chk.knife_edges += 1
                     chk.tag("knife:patch_sum~0")
                 elif f[0] is None or f[1] is None:
@@ -473,6 +498,35 @@ def run_case(chk, I, case, mline, f07_known):
         if why:
             one = {"S": 1, "C": 1, "h": h, "w": w, "den": case["den"], "maps": [case["maps"][k]], "thr": thr, "p": p, "dtype": dtype}
             fail(chk, f"C07 fails on find_global_peaks(integral, p={p}): {why}", one, list(f), sigs)
+
+    if half_in and p >= 2:
+        def half_agrees(got):
+            for k, (fa, fb, g_) in enumerate(zip(got, refined, rough)):
+                if fa[2] != fb[2] or (g_[0] is None) != (fb[0] is None):
+                    return False
+                if g_[0] is None:
+                    if fa[0] is not None or fa[1] is not None:
+                        return False
+                    continue
+                s_, c_ = divmod(k, C)
+                P = patch_of(np, a, s_, c_, int(g_[0]), int(g_[1]), p)
+                z, az = float(P.sum()), eff_abs_sum(np, P, a[s_, c_], p)
+                if abs(z) <= 1e-3 * az:
+                    continue  # knife-edge: the half-precision sum may round the normaliser to exactly 0
+                tol = REFINE_TOL[half_in[1]] * max(1.0, (p + 1) / 2 * az / abs(z))
+                for u, v in ((fa[0], fb[0]), (fa[1], fb[1])):
+                    if u is None or v is None or abs(u) == float("inf") or not abs(u - v) <= tol:
+                        return False
+            return True
+
+        def half_bound(got):
+            for k, (g_, f_) in enumerate(zip(rough, got)):
+                why_, sigs_ = oracle_refined(np, a[k // C, k % C], g_, f_, p, half_in[1])
+                if why_:
+                    return why_, sigs_
+            return None, []
+
+        half_precision_refine(chk, I, "find_global_peaks", I.full(half_in[0], thr, "integral", p), refined, half_agrees, half_bound, small, p)
 
     # ---- sub-pixel bumps: symmetric-unmoved / toward-centre / no-overshoot
     for k, t in enumerate(case.get("truth", [])):
@@ -590,6 +644,13 @@ def main(chk: Check):
                 chk.disagree("F-C07 witness: implementation is neither the as-is nor the repaired model", ent["witness"], str(got), str(m))
             chk.known_replay("F-C07", still_fails=bool(why) and "tied_max_separate_argmax" in sigs,
                              detail=f"impl={got} repaired-model={m['fix']}")
+        elif ent["signature"] == "half_precision_crop":
+            case["dtype"] = ent["witness"].get("dtype", "f16")
+            hc = I.tensor(case)
+            ref32 = I.full(hc.float(), case["thr"], "integral", case["p"])
+            got = I.full(hc, case["thr"], "integral", case["p"])
+            still = (got and got[0] == "raise") or str(got) != str(ref32)
+            chk.known_replay(ent["id"], still_fails=bool(still), detail=f"half={got} float32={ref32}")
         elif ent["signature"] == "refinement_patch_crosses_border":
             still, details = True, []
             for wt in (ent["witness"], ent.get("witness_symmetric")):  # toward-centre witness, symmetric-bump witness
@@ -678,7 +739,7 @@ if __name__ == "__main__":
              "borders/corners and to different rows AND columns, unique border maxima, all-low, constant; with and without negative "
              "values; mixed valid/invalid channels), 7 thresholds, integral_patch_size 1..8 (odd and even) or none; plus float32/float64 sub-pixel bumps (Gaussian sigma 0.75..2.5, cone, quadratic, separable-symmetric; "
              "sub-pixel centres on 1/16, inside and at the border); distinct = distinct (shape, thr, patch, map bytes) with >= 1 valid "
-             "channel and more than one cell",
+             "channel and more than one cell; MEMORY LAYOUTS as in C06 (channels_last, padded-buffer slice, channel stride 2, (C,S)-permuted, expanded, H/W-transposed): find_global_peaks_rough, find_global_peaks(None / integral) on the view must equal the contiguous clone's answer (values, not layouts, are what the model sees)",
         assumptions=[
             "finite maps with h, w >= 1; integral_patch_size 1..8: odd p reads cells, even p reads means of four cells (half-integer "
             "sampling), both modelled; p = 1 raises inside kornia (F-C06p1) where the model gives offset 0",
@@ -686,8 +747,11 @@ if __name__ == "__main__":
             "cells, beyond the dtype's exact-integer range); the model is dtype-agnostic (runs on the exact values): comparisons are "
             "exact in the map's own dtype, coordinates are float32 integers, values keep the map's dtype; thresholds dyadic except "
             "0.1 / 0.2 with float32 maps",
-            "OUT OF DOMAIN (recorded in evidence.out_of_domain, not judged): integral refinement of float16/bfloat16 maps — on the "
-            "unchanged tree kornia's crop_and_resize raises _LinAlgError for many shapes and returns NaN for large maps",
+            "EXCLUDED REGION (finding F-C06half, repair offered in fixes/C07-half-precision-crop.patch): integral refinement of float16/bfloat16 "
+            "maps. ~60 % of the half-precision cases keep their patch size: correspondence and oracles run on the identical values as "
+            "float32, then the half-precision call is compared with that answer peak by peak (half-precision tolerance, knife-edges "
+            "skipped); a raise / NaN / discrepancy carries the effect-based signature half_precision_crop. The fixed outcome probe "
+            "stays in evidence.out_of_domain",
             "refinement bound proved for non-negative maps / positive threshold only (F-C06 applies here too); negative patches sampled "
             "every run with the oracle (excluded_region_cases) — search, not proof",
             "toward-centre / symmetric-unmoved are theorems for patches inside the map; the unrestricted statement is false "
